@@ -309,6 +309,74 @@ func runC17(t *testing.T, tier string) int {
 			}
 		}
 
+		// ------------------------------------------- topics deleted under a subscription
+		// the configuration that was set stays what Get / List report when the
+		// subscription's topic or its dead-letter topic is deleted afterwards (only
+		// the name of the deleted topic itself may be replaced by the placeholder)
+		for round, which := range []string{"source", "dead-letter", "both"} {
+			src := fmt.Sprintf("projects/p/topics/del-src-%d", round)
+			dl := fmt.Sprintf("projects/p/topics/del-dl-%d", round)
+			name := fmt.Sprintf("projects/p/subscriptions/del-%d", round)
+			for _, tn := range []string{src, dl} {
+				if _, err := w.Pub.CreateTopic(ctx, &pubsubpb.Topic{Name: tn}); err != nil {
+					t.Fatal(err)
+				}
+			}
+			req := &pubsubpb.Subscription{Name: name, Topic: src, Labels: map[string]string{"a": "b"}, Filter: "attributes:x",
+				DeadLetterPolicy: &pubsubpb.DeadLetterPolicy{DeadLetterTopic: dl, MaxDeliveryAttempts: 7},
+				RetryPolicy:      &pubsubpb.RetryPolicy{MinimumBackoff: durationpb.New(3 * time.Second), MaximumBackoff: durationpb.New(40 * time.Second)},
+				MessageRetentionDuration: durationpb.New(20 * time.Minute), ExpirationPolicy: &pubsubpb.ExpirationPolicy{Ttl: durationpb.New(36 * time.Hour)}}
+			if _, err := w.Sub.CreateSubscription(ctx, req); err != nil {
+				t.Fatal(err)
+			}
+			creates++
+			before, err := w.Sub.GetSubscription(ctx, &pubsubpb.GetSubscriptionRequest{Subscription: name})
+			if err != nil {
+				t.Fatal(err)
+			}
+			if which != "dead-letter" {
+				if _, err := w.Pub.DeleteTopic(ctx, &pubsubpb.DeleteTopicRequest{Topic: src}); err != nil {
+					t.Fatal(err)
+				}
+			}
+			if which != "source" {
+				if _, err := w.Pub.DeleteTopic(ctx, &pubsubpb.DeleteTopicRequest{Topic: dl}); err != nil {
+					t.Fatal(err)
+				}
+			}
+			reads := map[string]*pubsubpb.Subscription{}
+			if got, err := w.Sub.GetSubscription(ctx, &pubsubpb.GetSubscriptionRequest{Subscription: name}); err != nil {
+				sink.add(report.Viol{Property: "C17", Check: "C17/deleted-topics", Rule: "get-roundtrip", Text: fmt.Sprintf("GetSubscription after deleting the %s topic failed: %v", which, err), Trace: []string{which}})
+			} else {
+				reads["Get"] = got
+			}
+			gets++
+			if lr, err := w.Sub.ListSubscriptions(ctx, &pubsubpb.ListSubscriptionsRequest{Project: "projects/p", PageSize: 1000}); err == nil {
+				for _, e := range lr.Subscriptions {
+					if e.Name == name {
+						reads["List"] = e
+					}
+				}
+				if reads["List"] == nil {
+					sink.add(report.Viol{Property: "C17", Check: "C17/deleted-topics", Rule: "list-roundtrip", Text: fmt.Sprintf("a live subscription is missing from ListSubscriptions after the %s topic was deleted", which), Trace: []string{which}})
+				}
+			}
+			for how, got := range reads {
+				want := proto.Clone(before).(*pubsubpb.Subscription)
+				// the deleted topic's own name may be shown as the placeholder
+				if which != "dead-letter" && got.Topic == "_deleted-topic_" {
+					want.Topic = got.Topic
+				}
+				if which != "source" && got.DeadLetterPolicy != nil && got.DeadLetterPolicy.DeadLetterTopic == "_deleted-topic_" {
+					want.DeadLetterPolicy.DeadLetterTopic = "_deleted-topic_"
+				}
+				if !proto.Equal(got, want) {
+					sink.add(report.Viol{Property: "C17", Check: "C17/deleted-topics", Rule: "get-roundtrip", Text: fmt.Sprintf("%s after deleting the %s topic: the configuration changed although nobody updated it:\n got  %v\n want %v", how, which, got, want), Trace: []string{which, how}})
+				}
+			}
+			w.Sub.DeleteSubscription(ctx, &pubsubpb.DeleteSubscriptionRequest{Subscription: name})
+		}
+
 		// ---------------------------------------------------------- update masks
 		paths := []string{"labels", "expiration_policy", "message_retention_duration", "enable_message_ordering", "retry_policy", "push_config", "filter", "dead_letter_policy"}
 		type upd struct {
